@@ -120,7 +120,8 @@ func variantCert(key string, v int) *ssh.Certificate {
 }
 
 func genBlob(t *rapid.T, label string, damaged bool) []byte {
-	k := rapid.SampledFrom(vh.SSHKeyNames).Draw(t, label+"Key")
+	// the key the real server's underlying agent holds is drawn as often as all the others together
+	k := rapid.SampledFrom(append(append([]string{}, vh.SSHKeyNames...), "ed25519c", "ed25519c", "ed25519c", "ed25519c", "ed25519c", "ed25519c")).Draw(t, label+"Key")
 	if !damaged && rapid.IntRange(0, 2).Draw(t, label+"Variant") == 1 {
 		return variantCert(k, rapid.IntRange(0, 15).Draw(t, label+"VariantKind")).Marshal()
 	}
@@ -300,6 +301,11 @@ func genStream(real bool) func(t *rapid.T) StreamCase {
 		n := rapid.IntRange(0, 8).Draw(t, "nframes")
 		for i := 0; i < n; i++ {
 			f, k := genFrame(t, fmt.Sprintf("f%d", i), real)
+			if i > 0 && rapid.IntRange(0, 4).Draw(t, fmt.Sprintf("f%dRepeat", i)) == 2 {
+				// the same request once more (a client that retries, registers a certificate again after a lock, ...)
+				j := rapid.IntRange(0, i-1).Draw(t, fmt.Sprintf("f%dRepeatOf", i))
+				f, k = append([]byte{}, c.Frames[j]...), c.Kinds[j]
+			}
 			if real && len(f) >= 2 && f[0] == 35 && f[1] < 40 {
 				f[1] += 40 // a real wait on a code below 40 blocks until a matching request arrives (C20 owns that)
 			}
@@ -617,7 +623,7 @@ func codeOf(b []byte) any {
 	return b[0]
 }
 
-const rule = "byte streams for ServeAgent over an in-memory connection: 0..8 frames from a grammar (add-hardware-certificate in the new and the legacy encoding with real, bit-flipped and truncated key / certificate blobs - the certificates with the usual KeyID or with 16 variants (touch policy 4 / 7 / -1 / 2^40, large usage, other flag sets, version 2, null principals, free text, empty, a trailer, expired, host certificate, critical option) -, junk; list slots; read / attest slot with slot names; wait with any code; the nine standard requests well-formed (built by the library client), truncated, with a lifetime constraint cut short, and with an inner length field overwritten by a boundary value (2^32-1..2^32-5, 2^31, 2^31-1, 2^24, the right value +-1, 0); unknown codes and extension with random bodies; frames of length 0, 1 and 2 with any code), followed by a clean end, a truncated length prefix, a truncated body or a declared length in {16 MiB+1, 2^30, 2^31, 2^32-1}; the served agent is a total recording agent that succeeds or fails every call with a text or with exactly io.EOF / io.ErrUnexpectedEOF. Oracle: the harness parses the stream itself; a well-formed frame gets exactly one response of the right kind (SUCCESS / error text, marshalled slot replies, standard reply code, byte-identical forwarded reply) with the arguments recorded by the served agent; a malformed frame is answered or ends the connection with a non-nil error; responses in request order; nothing after the end; clean end => nil; nil => as many responses as complete frames; truncated length prefix or truncated body (including a stream that ends right after a length prefix) => error; oversize => error and < 8 MiB allocated. Non-trivial: >= 2 frames mixing well-formed and malformed, or a non-clean tail after >= 1 frame."
+const rule = "byte streams for ServeAgent over an in-memory connection: 0..8 frames from a grammar, a fifth of the later frames a verbatim repeat of an earlier one (add-hardware-certificate in the new and the legacy encoding with real, bit-flipped and truncated key / certificate blobs - the certificates with the usual KeyID or with 16 variants (touch policy 4 / 7 / -1 / 2^40, large usage, other flag sets, version 2, null principals, free text, empty, a trailer, expired, host certificate, critical option) -, junk; list slots; read / attest slot with slot names; wait with any code; the nine standard requests well-formed (built by the library client), truncated, with a lifetime constraint cut short, and with an inner length field overwritten by a boundary value (2^32-1..2^32-5, 2^31, 2^31-1, 2^24, the right value +-1, 0); unknown codes and extension with random bodies; frames of length 0, 1 and 2 with any code), followed by a clean end, a truncated length prefix, a truncated body or a declared length in {16 MiB+1, 2^30, 2^31, 2^32-1}; the served agent is a total recording agent that succeeds or fails every call with a text or with exactly io.EOF / io.ErrUnexpectedEOF. Oracle: the harness parses the stream itself; a well-formed frame gets exactly one response of the right kind (SUCCESS / error text, marshalled slot replies, standard reply code, byte-identical forwarded reply) with the arguments recorded by the served agent; a malformed frame is answered or ends the connection with a non-nil error; responses in request order; nothing after the end; clean end => nil; nil => as many responses as complete frames; truncated length prefix or truncated body (including a stream that ends right after a length prefix) => error; oversize => error and < 8 MiB allocated. Non-trivial: >= 2 frames mixing well-formed and malformed, or a non-clean tail after >= 1 frame."
 
 func TestC12Stream(t *testing.T) {
 	vh.Run(t, vh.Spec[StreamCase]{Property: "C12", Name: "TestC12Stream", Rule: rule, Gen: genStream(false), Exec: exec})
